@@ -64,6 +64,7 @@ type vWorld struct {
 	snaps   [][]vSnapRegion
 	stale   float64
 	usedOld bool
+	loads   int // region-returning PD calls during the current lookup / send: each may install descriptions, removing others first
 	stores  []uint64
 	stopped map[uint64]bool
 	liveMu  sync.Mutex
@@ -139,6 +140,7 @@ func toRouter(r vSnapRegion) *router.Region {
 }
 
 func (p *vPD) GetRegion(ctx context.Context, key []byte, opts ...opt.GetRegionOption) (*router.Region, error) {
+	p.w.loads++
 	if s := p.old(); s != nil {
 		for _, r := range s {
 			if snapContains(r, key) {
@@ -150,6 +152,7 @@ func (p *vPD) GetRegion(ctx context.Context, key []byte, opts ...opt.GetRegionOp
 }
 
 func (p *vPD) GetPrevRegion(ctx context.Context, key []byte, opts ...opt.GetRegionOption) (*router.Region, error) {
+	p.w.loads++
 	if s := p.old(); s != nil {
 		for _, r := range s {
 			if len(key) > 0 && bytes.Equal(r.meta.EndKey, key) || (bytes.Compare(r.meta.StartKey, key) < 0 && (len(r.meta.EndKey) == 0 || bytes.Compare(key, r.meta.EndKey) <= 0)) {
@@ -161,6 +164,7 @@ func (p *vPD) GetPrevRegion(ctx context.Context, key []byte, opts ...opt.GetRegi
 }
 
 func (p *vPD) GetRegionByID(ctx context.Context, id uint64, opts ...opt.GetRegionOption) (*router.Region, error) {
+	p.w.loads++
 	if s := p.old(); s != nil {
 		for _, r := range s {
 			if r.meta.Id == id {
@@ -189,6 +193,7 @@ func snapScan(s []vSnapRegion, start, end []byte, limit int) []*router.Region {
 }
 
 func (p *vPD) ScanRegions(ctx context.Context, start, end []byte, limit int, opts ...opt.GetRegionOption) ([]*router.Region, error) {
+	p.w.loads++
 	if s := p.old(); s != nil {
 		return snapScan(s, start, end, limit), nil
 	}
@@ -196,6 +201,7 @@ func (p *vPD) ScanRegions(ctx context.Context, start, end []byte, limit int, opt
 }
 
 func (p *vPD) BatchScanRegions(ctx context.Context, ranges []router.KeyRange, limit int, opts ...opt.GetRegionOption) ([]*router.Region, error) {
+	p.w.loads++
 	if s := p.old(); s != nil {
 		var out []*router.Region
 		for _, kr := range ranges {
@@ -431,6 +437,7 @@ func (w *vWorld) finish(ev vM, err error) {
 		ev["err"] = fmt.Sprintf("%T: %s", err, err.Error()) // some errors of the repository have an empty message
 	}
 	ev["stale"] = w.usedOld
+	ev["loads"] = w.loads
 	ev["cache"] = w.cacheDump()
 	ev["truth"] = w.truthDump()
 	w.emit(ev)
@@ -456,7 +463,7 @@ func (w *vWorld) randRange() (int, int) {
 }
 
 func (w *vWorld) lookup() {
-	w.usedOld = false
+	w.usedOld, w.loads = false, 0
 	c := w.cache
 	switch w.rnd.Intn(12) {
 	case 0, 1:
@@ -590,7 +597,7 @@ func (w *vWorld) cacheOp() {
 
 // one request for key k, retried like rawkv.Client.sendReq does
 func (w *vWorld) send(k int, final bool) {
-	w.usedOld = false
+	w.usedOld, w.loads = false, 0
 	// calm: every store is up, the client knows it (its health-check loop has caught up), and PD answers freshly
 	calm := len(w.stopped) == 0 && w.stale == 0
 	for _, st := range w.cache.stores.filter(nil, func(*Store) bool { return true }) {
@@ -646,7 +653,7 @@ func (w *vWorld) send(k int, final bool) {
 		}
 	}
 	w.emit(vM{"ev": "send", "k": k, "ok": ok, "err": errs, "tries": tries, "rpcs": atomic.LoadInt64(&w.rpc.attempts) - n0, "addr": w.rpc.lastAddr, "leader": leader,
-		"leaderaddr": lstore, "final": final, "calm": calm, "stale": w.usedOld, "rerrs": rerrs, "misrouted": w.rpc.misrouted, "cache": w.cacheDump(), "truth": w.truthDump()})
+		"leaderaddr": lstore, "final": final, "calm": calm, "stale": w.usedOld, "loads": w.loads, "rerrs": rerrs, "misrouted": w.rpc.misrouted, "cache": w.cacheDump(), "truth": w.truthDump()})
 }
 
 func vNewWorld(rnd *rand.Rand, log *bufio.Writer) *vWorld {
@@ -790,7 +797,7 @@ func vEnum(log *bufio.Writer, seed int64, div int) {
 					}
 				}
 				w.emit(vM{"ev": "cacheop", "kind": "warm", "id": 0, "cache": w.cacheDump()})
-				w.usedOld = false
+				w.usedOld, w.loads = false, 0
 				if len(q) == 1 && q[0][2] == 1 {
 					locs, err := w.cache.LocateKeyRange(w.bo(), w.key(q[0][0]), w.key(q[0][1]))
 					w.finish(vM{"api": "LocateKeyRange", "ranges": []vM{{"s": q[0][0], "e": q[0][1]}}, "locs": w.locsM(locs)}, err)
